@@ -30,6 +30,16 @@ theorem worklist_complete (succ : Nat → List Nat) (n : Nat) (roots : List Nat)
 theorem dfs_finds_a_cycle (adj : List (List Nat)) (h : HasCycle adj) : findCycles adj ≠ [] :=
   findCycles_complete adj h
 
+/-- **soundness of the worklist**: it processes nothing but nodes reachable from a root. -/
+theorem worklist_sound (succ : Nat → List Nat) (n : Nat) (roots : List Nat) {c : Nat}
+    (h : c ∈ closure succ n roots) : c < n ∧ ∃ r ∈ roots, ReachN succ n r c :=
+  closure_sound succ n roots h
+
+/-- **soundness of `find_cycles`**: every reported list is a closed walk of the graph (non-empty,
+    consecutive nodes joined by edges, the last one pointing back at the first). -/
+theorem dfs_reports_only_cycles (adj : List (List Nat)) : ∀ c ∈ findCycles adj, IsCycle adj c :=
+  findCycles_sound adj
+
 /-! ## Scope lookup: nearest enclosing registration, siblings invisible
 (vocabulary and proofs in Pxv/Lemmas/RulesSpec.lean) -/
 
@@ -91,6 +101,29 @@ theorem missing_complete' (db : DB) {c k : Nat} {x : Inp} (hr : db.Reachable c)
   | some j =>
     have := ctorIn_some h
     exact absurd this.2.2.1 (hnone a ha j this.1 this.2.1 this.2.2.2)
+
+/-- and nothing else is reported as missing: the diagnostic is exact. -/
+theorem missing_sound (db : DB) {c k : Nat} (h : ⟨.missing, c, k⟩ ∈ db.detectMissing) :
+    db.Reachable c ∧ ∃ x, (db.comp c).ins[k]? = some x ∧ db.lookup (db.comp c).scope x.ty = none := by
+  unfold DB.detectMissing at h
+  obtain ⟨i, hi, hd⟩ := List.mem_flatMap.mp h
+  unfold DB.missingAt at hd
+  obtain ⟨⟨x, k'⟩, hmem, hf⟩ := List.mem_filterMap.mp hd
+  have hx : (db.comp i).ins[k']? = some x := List.mem_zipIdx_iff_getElem?.mp hmem
+  simp only at hf
+  cases hl : db.lookup (db.comp i).scope x.ty with
+  | none =>
+    simp only [hl, Option.some.injEq, Diag.mk.injEq] at hf
+    obtain ⟨_, rfl, rfl⟩ := hf
+    exact ⟨reach_sound hi, x, hx, hl⟩
+  | some j =>
+    simp only [hl] at hf
+    split at hf
+    · split at hf
+      · simp at hf
+      · simp at hf
+      · split at hf <;> simp at hf
+    · simp at hf
 
 /-! ## Rules: `&mut` injection of a singleton / a transient / a clone-if-necessary request-scoped value -/
 
@@ -165,6 +198,28 @@ theorem cycles_complete (db : DB) {c : Nat} (hr : db.Reachable c) (hc : PathS db
   unfold DB.cycles
   intro h
   exact this (List.map_eq_nil_iff.mp h)
+
+/-- and only then: a reported cycle is a reachable component that needs itself. -/
+theorem cycles_sound (db : DB) (h : db.cycles ≠ []) : ∃ c, db.Reachable c ∧ PathS db.deps c c := by
+  unfold DB.cycles at h
+  have hne : findCycles db.depAdj ≠ [] := fun e => h (by rw [e]; rfl)
+  obtain ⟨cyc, hcyc⟩ := List.exists_mem_of_ne_nil _ hne
+  obtain ⟨a, ha⟩ := (findCycles_sound db.depAdj cyc hcyc).onCycle
+  have hedge : ∀ x y, y ∈ succOf db.depAdj x → x ∈ db.reach ∧ y ∈ db.deps x := by
+    intro x y hy
+    unfold succOf DB.depAdj at hy
+    simp only [List.getD_eq_getElem?_getD, List.getElem?_map] at hy
+    by_cases hx : x < db.n
+    · simp only [List.getElem?_range hx, Option.map_some, Option.getD_some] at hy
+      split at hy
+      · rename_i hr; exact ⟨List.contains_iff_mem.mp hr, hy⟩
+      · cases hy
+    · have : (List.range db.n)[x]? = none := List.getElem?_eq_none (by simp; omega)
+      simp [this] at hy
+  have hreach : a ∈ db.reach := by
+    obtain ⟨w, hw, _⟩ := onCycle_succ ha
+    exact (hedge a w hw).1
+  exact ⟨a, reach_sound hreach, PathS.transfer (P := fun _ => True) (fun x y _ hy => ⟨(hedge x y hy).2, trivial⟩) trivial ha⟩
 
 /-! ## Rule: a singleton that depends on a request-scoped type, directly or through transients -/
 
